@@ -54,12 +54,14 @@ func runC18(p *core.Program, r *core.Report) {
 	r.NotDecided = []string{"that comments and line order survive a write (string processing in DefaultFileParser.Write; values containing '=' in non-word-key lines are truncated — seen while reading, value-level)", "crash points as instants (the atomic-replace shape is the necessary condition)"}
 	r.Rule("C18.map-guard", "every access to the configuration map happens under the configuration's mutex", 6)
 	r.Rule("C18.getters", "typed getters fall back to the default on empty and on parse error; error polarity is right", 6)
+	r.Rule("C18.trim", "the raw accessor hands out map values with the surrounding white space removed (the loader keeps what follows the value on its line; the typed getters parse what the accessor returns)", 1)
 	r.Rule("C18.reload", "reload skips iff mtime == last (full resolution), applies, then notifies the observer", 3)
 	r.Rule("C18.atomic-write", "the configuration path is never truncated in place: temp file in the same directory + Sync + Rename", 1)
 	r.Rule("C18.merge", "SetValues re-reads the file, overlays the keys and writes once", 1)
 
 	c18MapGuard(p, r)
 	c18Getters(p, r)
+	c18Trim(p, r)
 	c18Reload(p, r)
 	c18AtomicWrite(p, r)
 	c18Merge(p, r)
@@ -531,4 +533,71 @@ func c18Merge(p *core.Program, r *core.Report) {
 	ok := reads == 1 && writes == 1 && overlay && writeArg == baseDef
 	r.Check(ok, "C18.merge", c, p.Pos(fi.Decl.Pos()), "re-reads the file, overlays the keys, writes once",
 		fmt.Sprintf("the written map is not the freshly re-read file content overlaid with the given keys (parser reads=%d, writes=%d, overlay=%v, written=%s): keys edited on disk since the last reload are overwritten with stale values", reads, writes, overlay, writeArg))
+}
+
+// c18Trim: every value that leaves the configuration map through a return statement of a FileConfig
+// method is passed through strings.TrimSpace (directly at the return). `key=6600 ` in the file must
+// read as 6600 through GetInt, not fall back to the default.
+func c18Trim(p *core.Program, r *core.Report) {
+	t := namedIn(p, "config/conffile", "FileConfig")
+	if t == nil {
+		return
+	}
+	for _, fi := range p.MethodsOf(t) {
+		if fi.Decl.Body == nil {
+			continue
+		}
+		info := fi.Pkg.TypesInfo
+		rn := recvName(fi)
+		// locals holding a value looked up in the map: v, ok := this.m[key] / v := this.m[key]
+		vals := map[types.Object]bool{}
+		ast.Inspect(fi.Decl.Body, func(n ast.Node) bool {
+			as, ok := n.(*ast.AssignStmt)
+			if !ok || len(as.Rhs) != 1 || len(as.Lhs) == 0 {
+				return true
+			}
+			ix, ok := ast.Unparen(as.Rhs[0]).(*ast.IndexExpr)
+			if !ok || stripSpaces(types.ExprString(ix.X)) != rn+".m" {
+				return true
+			}
+			if id, ok := as.Lhs[0].(*ast.Ident); ok && id.Name != "_" {
+				if b, ok := info.TypeOf(id).Underlying().(*types.Basic); ok && b.Info()&types.IsString != 0 {
+					vals[info.ObjectOf(id)] = true
+				}
+			}
+			return true
+		})
+		if len(vals) == 0 {
+			continue
+		}
+		n := 0
+		var probs []string
+		ast.Inspect(fi.Decl.Body, func(m ast.Node) bool {
+			rs, ok := m.(*ast.ReturnStmt)
+			if !ok {
+				return true
+			}
+			for _, res := range rs.Results {
+				mentions := false
+				ast.Inspect(res, func(k ast.Node) bool {
+					if id, ok := k.(*ast.Ident); ok && vals[info.ObjectOf(id)] {
+						mentions = true
+					}
+					return true
+				})
+				if !mentions {
+					continue
+				}
+				n++
+				call, ok := ast.Unparen(res).(*ast.CallExpr)
+				if !ok || !isCallTo(info, call, "strings", "TrimSpace") {
+					probs = append(probs, p.Pos(rs.Pos())+": the map value is returned as stored (`"+types.ExprString(res)+"`): trailing blanks of the line reach the parsers, which then fall back to the default")
+				}
+			}
+			return true
+		})
+		if n > 0 {
+			fileProbs(r, "C18.trim", core.FuncName(fi.Obj), p.Pos(fi.Decl.Pos()), probs, "map values leave through strings.TrimSpace")
+		}
+	}
 }
